@@ -6,16 +6,35 @@ use sea_query::*;
 pub fn cond(s: &S) -> Condition {
     assert!(s.head() == "cond");
     let l = s.args();
-    // Cond::any() / Cond::all() or the any![] / all![] macros with no member, for part of the cases
+    // Cond::any() / Cond::all(), or the any![..] / all![..] macros with the first 0, 1 or 2 added members written
+    // inside the macro call (the group must keep its own type and stay open for later additions), for part of the cases
     let mac = exprs::shash(s) % 2 == 1;
-    let mut c = match (l[0].atom(), mac) {
-        ("any", false) => Condition::any(),
-        ("all", false) => Condition::all(),
-        ("any", true) => sea_query::any![],
-        ("all", true) => sea_query::all![],
+    let is_any = match l[0].atom() {
+        "any" => true,
+        "all" => false,
         _ => panic!("cond type"),
     };
-    for op in &l[1..] {
+    let leading = l[1..].iter().take_while(|op| op.head() == "add").count();
+    let inside = if mac { std::cmp::min(leading, (exprs::shash(s) >> 5) as usize % 3) } else { 0 };
+    macro_rules! group {
+        ($($m:expr),*) => { if is_any { sea_query::any![$($m),*] } else { sea_query::all![$($m),*] } };
+    }
+    let arg = |i: usize| &l[1 + i].args()[0];
+    let mut c = if !mac {
+        if is_any { Condition::any() } else { Condition::all() }
+    } else {
+        match inside {
+            0 => group!(),
+            1 => if arg(0).head() == "cond" { group!(cond(arg(0))) } else { group!(exprs::expr(arg(0))) },
+            _ => match (arg(0).head() == "cond", arg(1).head() == "cond") {
+                (true, true) => group!(cond(arg(0)), cond(arg(1))),
+                (true, false) => group!(cond(arg(0)), exprs::expr(arg(1))),
+                (false, true) => group!(exprs::expr(arg(0)), cond(arg(1))),
+                (false, false) => group!(exprs::expr(arg(0)), exprs::expr(arg(1))),
+            },
+        }
+    };
+    for op in &l[1 + inside..] {
         match op.head() {
             "add" => c = add(c, &op.args()[0]),
             "addopt" => {
